@@ -81,7 +81,8 @@ std::optional<ChunkRecord> ChunkStore::get_record(const ChunkId& id) {
     }
 
     if (std::chrono::steady_clock::now() >= it->second.expires_at) {
-        chunks_.erase(it);
+        // Expired: not served any more. The record stays until sweep_expired() takes it, which also wipes the
+        // persisted file and lets the node report and withdraw the chunk; dropping it here skipped all three.
         return std::nullopt;
     }
 
